@@ -3,14 +3,16 @@ def c02WalkTrueRangesSrc : Fc.PyLite.Fn := {
   name := "walk_adjacent_true_index_ranges"
   params := ["v0", "v1"]
   body := [
-    .unpack ["v2", "v3", "v4"] (.tuple [(.lit (.int 0)), (.lit (.int 0)), (.lit (.bool false))]),
+    .assign "v2" (.lit (.bool false)),
+    .assign "v3" (.lit (.int 0)),
+    .assign "v4" (.lit (.int 0)),
     .forIn "v5" (.call .range [(.call .len [(.var "v0")])]) [
-      .ite (.and (.index (.var "v0") (.var "v5")) (.not (.var "v4"))) [
-        .unpack ["v2", "v4"] (.tuple [(.var "v5"), (.lit (.bool true))])
+      .ite (.and (.index (.var "v0") (.var "v5")) (.not (.var "v2"))) [
+        .unpack ["v3", "v2"] (.tuple [(.var "v5"), (.lit (.bool true))])
       ] [
-        .ite (.and (.not (.index (.var "v0") (.var "v5"))) (.var "v4")) [
-          .unpack ["v3", "v4"] (.tuple [(.var "v5"), (.lit (.bool false))]),
-          .yield (.tuple [(.var "v2"), (.ite (.var "v1") (.bin .add (.var "v3") (.lit (.int 1))) (.var "v3"))])
+        .ite (.and (.not (.index (.var "v0") (.var "v5"))) (.var "v2")) [
+          .unpack ["v4", "v2"] (.tuple [(.var "v5"), (.lit (.bool false))]),
+          .yield (.tuple [(.var "v3"), (.ite (.var "v1") (.bin .add (.var "v4") (.lit (.int 1))) (.var "v4"))])
         ] []
       ]
     ]
